@@ -17,6 +17,8 @@ pub enum T {
     Fun,
     /// a data type with two constructors (critical pairs at it are lifted by shrinking)
     Opt,
+    /// `data Wrap { W(p: Pair, v: i64) }`: a constructor with a constructor-typed argument (nesting)
+    Wrap,
 }
 
 #[derive(Clone, Debug)]
@@ -29,6 +31,8 @@ pub enum S {
     /// call of the helper `h(x: prd i64, j: cns Fun2)`: a consumer ARGUMENT at a codata type (a
     /// destructor with non-value arguments in argument position)
     CallH(Rc<P>, Rc<C>),
+    /// two-operand conditional; the first component indexes `IF2_SORTS`
+    If2(u8, Rc<P>, Rc<P>, Rc<S>, Rc<S>),
 }
 #[derive(Clone, Debug)]
 pub enum P {
@@ -40,6 +44,8 @@ pub enum P {
     CoCase(u8, u8, u8, Rc<S>),
     No,
     Yes(Rc<P>),
+    /// W(pair, int)
+    Wr(Rc<P>, Rc<P>),
 }
 #[derive(Clone, Debug)]
 pub enum C {
@@ -49,7 +55,11 @@ pub enum C {
     Ap(Rc<P>, Rc<P>, Rc<C>),
     /// case { No => s1, Yes(x) => s2 }
     CaseOpt(u8, Rc<S>, Rc<S>),
+    /// case { W(a: Pair, b: i64) => s }
+    CaseW(u8, u8, Rc<S>),
 }
+
+pub const IF2_SORTS: [IfSort; 6] = [IfSort::Equal, IfSort::NotEqual, IfSort::Less, IfSort::LessOrEqual, IfSort::Greater, IfSort::GreaterOrEqual];
 
 pub const VARS: [&str; 2] = ["x", "y"];
 pub const COVARS: [&str; 2] = ["k", "j"];
@@ -78,6 +88,10 @@ pub struct Alphabet {
     pub with_if: bool,
     pub with_call: bool,
     pub with_exit: bool,
+    /// two-operand conditionals with these sorts (indices into `IF2_SORTS`); with them, mu / mu-tilde
+    /// abstractions over a two-node statement (`mu k. exit v`) are admitted, so that two effectful
+    /// operands fit into the size bound
+    pub if2: Vec<u8>,
 }
 
 pub struct Enum {
@@ -183,6 +197,34 @@ impl Enum {
                 }
             }
         }
+        if !self.alpha.if2.is_empty() && n >= 7 {
+            let smin = if self.alpha.with_exit { 2 } else { 3 };
+            for a in 1..=n.saturating_sub(2 + 2 * smin) {
+                for b in 1..=n.saturating_sub(1 + a + 2 * smin) {
+                    for c in smin..=n.saturating_sub(1 + a + b + smin) {
+                        let d = n - 1 - a - b - c;
+                        if d < smin {
+                            continue;
+                        }
+                        let ps = self.prods(T::Int, sc, a);
+                        let qs = self.prods(T::Int, sc, b);
+                        let s1 = self.stmts(sc, c);
+                        let s2 = self.stmts(sc, d);
+                        for so in self.alpha.if2.clone() {
+                            for p in ps.iter() {
+                                for q in qs.iter() {
+                                    for x in s1.iter() {
+                                        for y in s2.iter() {
+                                            out.push(Rc::new(S::If2(so, p.clone(), q.clone(), x.clone(), y.clone())));
+                                        }
+                                    }
+                                }
+                            }
+                        }
+                    }
+                }
+            }
+        }
         let r = Rc::new(out);
         self.ms.insert((sc, n), r.clone());
         r
@@ -225,6 +267,17 @@ impl Enum {
                 }
             }
         }
+        if n >= 5 && t == T::Wrap {
+            for a in 3..=n - 2 {
+                let xs = self.prods(T::Pair, sc, a);
+                let ys = self.prods(T::Int, sc, n - 1 - a);
+                for x in xs.iter() {
+                    for y in ys.iter() {
+                        out.push(Rc::new(P::Wr(x.clone(), y.clone())));
+                    }
+                }
+            }
+        }
         if t == T::Opt {
             if n == 1 {
                 out.push(Rc::new(P::No));
@@ -234,7 +287,7 @@ impl Enum {
                 }
             }
         }
-        if n >= 4 {
+        if n >= 4 || (n >= 3 && !self.alpha.if2.is_empty()) {
             // mu k. s
             for k in 0..2u8 {
                 for s in self.stmts(sc.bind_covar(k, t), n - 1).iter() {
@@ -270,7 +323,7 @@ impl Enum {
                 }
             }
         }
-        if n >= 4 {
+        if n >= 4 || (n >= 3 && !self.alpha.if2.is_empty()) {
             for x in 0..2u8 {
                 for s in self.stmts(sc.bind_var(x, t), n - 1).iter() {
                     out.push(Rc::new(C::MuT(x, t, s.clone())));
@@ -282,6 +335,14 @@ impl Enum {
                 let inner = sc.bind_var(a, T::Int).bind_var(b, T::Int);
                 for s in self.stmts(inner, n - 1).iter() {
                     out.push(Rc::new(C::Case(a, b, s.clone())));
+                }
+            }
+        }
+        if n >= 4 && t == T::Wrap {
+            for (a, b) in [(0u8, 1u8), (1, 0)] {
+                let inner = sc.bind_var(a, T::Pair).bind_var(b, T::Int);
+                for s in self.stmts(inner, n - 1).iter() {
+                    out.push(Rc::new(C::CaseW(a, b, s.clone())));
                 }
             }
         }
@@ -337,6 +398,7 @@ pub fn ty(t: T) -> Ty {
         T::Pair => Ty::Decl(id("Pair")),
         T::Fun => Ty::Decl(id("Fun2")),
         T::Opt => Ty::Decl(id("Opt")),
+        T::Wrap => Ty::Decl(id("Wrap")),
     }
 }
 fn bind(name: &str, chi: Chirality, t: T) -> ContextBinding {
@@ -416,6 +478,7 @@ pub fn stmt_e(s: &S, e: &IdEnv) -> Statement {
         S::Print(p, n) => Statement::PrintI64(PrintI64 { newline: true, arg: Rc::new(prod_e(p, e)), next: Rc::new(stmt_e(n, e)) }),
         S::IfZ(p, a, b) => Statement::IfC(IfC { sort: IfSort::Equal, fst: Rc::new(prod_e(p, e)), snd: None, thenc: Rc::new(stmt_e(a, e)), elsec: Rc::new(stmt_e(b, e)) }),
         S::Exit(p) => Statement::Exit(Exit { arg: Rc::new(prod_e(p, e)), ty: Ty::I64 }),
+        S::If2(so, p, q, a, b) => Statement::IfC(IfC { sort: IF2_SORTS[*so as usize], fst: Rc::new(prod_e(p, e)), snd: Some(Rc::new(prod_e(q, e))), thenc: Rc::new(stmt_e(a, e)), elsec: Rc::new(stmt_e(b, e)) }),
         S::CallH(a, k) => Statement::Call(Call { name: id("h"), args: Arguments { entries: vec![Argument::Producer(prod_e(a, e)), Argument::Consumer(cons_e(k, e))] }, ty: Ty::I64 }),
         S::Call(a, b, k) => Statement::Call(Call { name: id("g"), args: Arguments { entries: vec![Argument::Producer(prod_e(a, e)), Argument::Producer(prod_e(b, e)), Argument::Consumer(cons_e(k, e))] }, ty: Ty::I64 }),
     }
@@ -427,6 +490,7 @@ pub fn prod_e(p: &P, e: &IdEnv) -> Term<Prd> {
         P::Sub(a, b) => Term::Op(Op { fst: Rc::new(prod_e(a, e)), op: BinOp::Sub, snd: Rc::new(prod_e(b, e)) }),
         P::Mu(k, t, s) => Term::Mu(Mu { prdcns: Prd, variable: e.bcovar(*k), statement: Rc::new(stmt_e(s, e)), ty: ty(*t) }),
         P::Tup(a, b) => Term::Xtor(Xtor { prdcns: Prd, name: id("Tup"), args: Arguments { entries: vec![Argument::Producer(prod_e(a, e)), Argument::Producer(prod_e(b, e))] }, ty: ty(T::Pair) }),
+        P::Wr(a, b) => Term::Xtor(Xtor { prdcns: Prd, name: id("W"), args: Arguments { entries: vec![Argument::Producer(prod_e(a, e)), Argument::Producer(prod_e(b, e))] }, ty: ty(T::Wrap) }),
         P::No => Term::Xtor(Xtor { prdcns: Prd, name: id("No"), args: Arguments { entries: vec![] }, ty: ty(T::Opt) }),
         P::Yes(a) => Term::Xtor(Xtor { prdcns: Prd, name: id("Yes"), args: Arguments { entries: vec![Argument::Producer(prod_e(a, e))] }, ty: ty(T::Opt) }),
         P::CoCase(a, b, k, s) => Term::XCase(XCase {
@@ -454,6 +518,16 @@ pub fn cons_e(c: &C, e: &IdEnv) -> Term<Cns> {
                 body: Rc::new(stmt_e(s, e)),
             }],
             ty: ty(T::Pair),
+        }),
+        C::CaseW(a, b, s) => Term::XCase(XCase {
+            prdcns: Cns,
+            clauses: vec![Clause {
+                prdcns: Cns,
+                xtor: id("W"),
+                context: TypingContext { bindings: vec![ContextBinding { var: e.bvar(*a), chi: Chirality::Prd, ty: ty(T::Pair) }, e.bindv(*b)] },
+                body: Rc::new(stmt_e(s, e)),
+            }],
+            ty: ty(T::Wrap),
         }),
         C::CaseOpt(x, s1, s2) => Term::XCase(XCase {
             prdcns: Cns,
@@ -521,7 +595,12 @@ pub fn program_ids(body: &S, final_print: bool, partly_unique: bool) -> (Prog, b
         name: id("Opt"),
         xtors: vec![XtorSig { xtor: Data, name: id("No"), args: TypingContext { bindings: vec![] } }, XtorSig { xtor: Data, name: id("Yes"), args: TypingContext { bindings: vec![bind("a", Chirality::Prd, T::Int)] } }],
     };
-    (Prog { defs: vec![main, helper_g(), helper_h()], data_types: vec![pair, opt], codata_types: vec![fun2], max_id: if partly_unique { 8 } else { 0 } }, shadowed)
+    let wrap = TypeDeclaration {
+        dat: Data,
+        name: id("Wrap"),
+        xtors: vec![XtorSig { xtor: Data, name: id("W"), args: TypingContext { bindings: vec![ContextBinding { var: id("p"), chi: Chirality::Prd, ty: ty(T::Pair) }, bind("v", Chirality::Prd, T::Int)] } }],
+    };
+    (Prog { defs: vec![main, helper_g(), helper_h()], data_types: vec![pair, opt, wrap], codata_types: vec![fun2], max_id: if partly_unique { 8 } else { 0 } }, shadowed)
 }
 
 pub fn initial_scope() -> Scope {
